@@ -206,7 +206,9 @@ class Engine(Hashable):
         """
         from ._transfer import Transfer
 
-        if simplified := Transfer.simplify(target, self):
+        if target.engine != self and (simplified := Transfer.simplify(target, self)):
+            # (A relation that already is in this engine is returned as-is below,
+            # even if it happens to end in a round trip that could be simplified.)
             target = simplified
         if target.engine == self:
             if payload is not None:
